@@ -310,12 +310,14 @@ def c14(run, tier):
         raise_spec(run, "Xsel (2 threads) with LegacyUnionInPlace did not violate Frame", out)
     # workloads from the 2-thread model, run by real goroutines under the race detector
     race = run.build_harness(race=True)
-    cfg = run.cfg("MC_Threads.cfg", {"MaxSteps": Q(tier, 3, 4), "Threads": Q(tier, 2, 2)}, "gen.cfg")
+    # (four steps per workload give about forty times as many workloads: the generator alone did not finish in 50 minutes, twice;
+    #  the thorough tier repeats the three-step workloads 40 times each instead - the schedules vary, the workloads do not)
+    cfg = run.cfg("MC_Threads.cfg", {"MaxSteps": 3, "Threads": 2}, "gen.cfg")
     saved = run.harness
     run.harness = race
     racelog = os.path.join(run.work, "race")
     run.env["GORACE"] = "log_path=%s halt_on_error=0 atexit_sleep_ms=0 exitcode=0" % racelog
-    run.env["VERIF_CONC_REPS"] = str(Q(tier, 6, 25))
+    run.env["VERIF_CONC_REPS"] = str(Q(tier, 6, 40))
     try:
         rep = run.tlc_gen_replay("Xsel", cfg, "workloads", timeout=Q(tier, 600, 3000), harness_args=["-workers", "4"])
     finally:
